@@ -916,6 +916,24 @@ impl World {
         self.entities.len()
     }
 
+    /// Snapshot of the entity allocator's bookkeeping, for verification harnesses
+    #[cfg(hecs_verif)]
+    #[doc(hidden)]
+    pub fn verif_entities_state(&mut self) -> crate::verif::EntitiesState {
+        self.entities.verif_state()
+    }
+
+    /// Entity IDs stored in each archetype in row order, for verification harnesses
+    #[cfg(hecs_verif)]
+    #[doc(hidden)]
+    pub fn verif_archetype_rows(&self) -> Vec<Vec<u32>> {
+        self.archetypes
+            .archetypes
+            .iter()
+            .map(|a| a.ids().to_vec())
+            .collect()
+    }
+
     /// Whether no entities are live
     #[inline]
     pub fn is_empty(&self) -> bool {
